@@ -7,8 +7,9 @@ CONFIG = dict(
                "the RFC 6811 state computed bit-wise from 'covers' (validate_eq_rfc6811), non-covering VRPs never change the "
                "result (unrelated_vrps_irrelevant), the origin handed to the classification is RFC 6811's Route Origin ASN "
                "(origin_is_rfc6811), and every history of insert/remove/drop-source/reset leaves exactly the set fold keyed by "
-               "(cache, prefix, max-length, AS) with no duplicates (table_is_set); plus the master theorem that the C12 reference "
-               "checker accepts every model run outside the recorded open finding.  The model is tied to table/src/lib.rs by "
+               "(cache, prefix, max-length, AS) with no duplicates (table_is_set); a locally originated route is validated with the "
+               "speaker's global AS (origin_of_local_route); plus the master theorem that the C12 reference checker accepts every "
+               "model run (check_run_ok; full strength since F12 was repaired).  The model is tied to table/src/lib.rs by "
                "running the real RpkiTable and the model on the same generated histories and diffing every validate result "
                "(state, reason, the three VRP lists) and every iter listing, with the reference checker as oracle on the real outputs; "
                "`show` cases drive the daemon path end to end (PolicyTable-built import assignment with an `rpki STATE` statement behind "
@@ -21,7 +22,7 @@ CONFIG = dict(
                "the API conversion (C17): `show` is modelled as 'state and reason of validate, filtered iff state = configured state'.",
     lean_modules=["Rbgp.Rpki.Props"],
     theorems=[
-        "Rbgp.Rpki.Props.check_run_ok_partial",
+        "Rbgp.Rpki.Props.check_run_ok",
         "Rbgp.Rpki.Props.validate_eq_rfc6811",
         "Rbgp.Rpki.Props.validate_eq_rfc6811_reachable",
         "Rbgp.Rpki.Props.unrelated_vrps_irrelevant",
@@ -29,7 +30,7 @@ CONFIG = dict(
         "Rbgp.Rpki.Props.table_is_set",
         "Rbgp.Rpki.Props.covers_iff_bits",
         "Rbgp.Rpki.Props.run_never_panics",
-        "Rbgp.Rpki.Props.not_check_run_ok_full",
+        "Rbgp.Rpki.Props.origin_of_local_route",
     ],
     harness=dict(kind="daemon", test="rpki::verif_rpki::verif_main"),
     profiles=["debug"],
@@ -42,13 +43,15 @@ CONFIG = dict(
          "(c) origin derivations: no AS_PATH, empty path, AS_SEQUENCE / AS_SET / CONFED_SEQ / CONFED_SET tails, ill-formed "
          "segment types, 255-AS segments, AS_PATH at positions 0..3 of the attribute list; (d) VRPs and routes of BOTH families in "
          "one case; (e) `show` = the daemon path (import policy `rpki STATE => reject` for each of the three states, route "
-         "inserted, listed and converted to the API form); (f) malformed: masks > 32/128, unparsable cases.  Thorough tier adds the exhaustive enumeration: all "
+         "inserted, listed and converted to the API form), for peer-learned routes and (`showl`) for locally originated ones "
+         "(Source::local()) with a global AS equal to or different from the session's local AS, also while no VRP of the family "
+         "is installed; (f) malformed: masks > 32/128, unparsable cases.  Thorough tier adds the exhaustive enumeration: all "
          "single VRPs over the 6-bit space, all VRP pairs over a 4-bit space and all triples over a 3-bit space (prefix x 2 "
          "max-lengths x 2 AS), each against ALL routes of the space, at offsets 0 and 5 in both families.  "
          "non-trivial = some validate answered valid/invalid or some iter was non-empty; distinct = distinct case line",
     expect_tokens=["(v valid", "(v invalid asn", "(v invalid length", "(v notfound", "(it)", "(it (", "(6 x", "(4 x",
                    "(api valid none t)", "(api valid none f)", "(api invalid asn t)", "(api invalid length t)", "(api invalid asn f)",
-                   "(api notfound none t)", "(api notfound none f)", "(api none f)", "(bad-case)"],
+                   "(api notfound none t)", "(api notfound none f)", "(bad-case)"],
     trusted_base=["model Rbgp/Rpki/Model.lean of table/src/lib.rs RpkiTable (prefix_key, validate, insert, remove, drop_source, iter)",
                   "harness/daemon/rpki_c12.rs: builds Source/Attribute/Nlri values through the public API; drives the real "
                   "TableManager (rpki_insert/withdraw/reset/drop_all, insert_route, collect_paths), PolicyTable and destination_to_api"],
@@ -147,7 +150,12 @@ def gen_small(r):
             src = ops if (ops and (not ops2 or r.chance(1, 2))) else ops2
             merged.append(src.pop(0))
         ops = merged
-    return "(case %d (ops %s))" % (LOCAL, " ".join(ops))
+    return "(case %s (ops %s))" % (header(r), " ".join(ops))
+
+
+def header(r):
+    """session local AS, optionally followed by a different global AS (both occur as VRP AS numbers)"""
+    return "%d" % LOCAL if r.chance(1, 2) else "%d %d" % (LOCAL, r.pick([LOCAL, 1, 2, 2]))
 
 
 def small_ops(r, fam, off):
@@ -191,7 +199,8 @@ def small_ops(r, fam, off):
             path = path_for(r, r.pick(VASNS) if r.chance(4, 5) else None)
             if r.chance(1, 4) and off + l <= sp.w:
                 path = wf_path_for(r, r.pick(VASNS) if r.chance(4, 5) else None)
-                ops.append("(show %s %s %s%s)" % (r.pick(["valid", "invalid", "notfound"]), net, path, pos_suffix(r)))
+                ops.append("(%s %s %s %s%s)" % (r.pick(["show", "show", "showl"]),
+                                                r.pick(["valid", "invalid", "notfound"]), net, path, pos_suffix(r)))
             else:
                 ops.append("(val %s %s%s)" % (net, path, pos_suffix(r)))
         else:
@@ -244,7 +253,8 @@ def gen_real(r):
             l = ln(); net = hexnet(fam, addr(), l); path = path_for(r, r.pick(VASNS) if r.chance(4, 5) else None)
             if r.chance(1, 4) and l <= w:      # a route in the RIB has a decodable mask and path
                 path = wf_path_for(r, r.pick(VASNS) if r.chance(4, 5) else None)
-                ops.append("(show %s %s %s%s)" % (r.pick(["valid", "invalid", "notfound"]), net, path, pos_suffix(r)))
+                ops.append("(%s %s %s %s%s)" % (r.pick(["show", "show", "showl"]),
+                                                r.pick(["valid", "invalid", "notfound"]), net, path, pos_suffix(r)))
             else:
                 ops.append("(val %s %s%s)" % (net, path, pos_suffix(r)))
     ops.append("(iter %d)" % fam)
